@@ -1,4 +1,5 @@
 mod c07;
+mod c08;
 mod c10;
 mod c14;
 mod c15;
@@ -7,6 +8,8 @@ mod c20;
 mod core;
 mod gchecks;
 mod gprog;
+mod lspchecks;
+mod lspdrv;
 mod reflex;
 mod refpos;
 mod sweep;
@@ -28,6 +31,10 @@ static C13: gchecks::GCheck = gchecks::GCheck { mode: gchecks::GMode::Diagnostic
 static C18: gchecks::GCheck = gchecks::GCheck { mode: gchecks::GMode::Outline };
 static C19: gchecks::GCheck = gchecks::GCheck { mode: gchecks::GMode::Hover };
 static C07: c07::C07 = c07::C07;
+static C08: c08::C08 = c08::C08;
+static C09: lspchecks::LspCheck = lspchecks::LspCheck { mode: lspchecks::LMode::Locations };
+static C11: lspchecks::LspCheck = lspchecks::LspCheck { mode: lspchecks::LMode::Converge };
+static C12: lspchecks::LspCheck = lspchecks::LspCheck { mode: lspchecks::LMode::Buffers };
 static C10: c10::C10 = c10::C10;
 static C14: c14::C14 = c14::C14;
 static C15: c15::C15 = c15::C15;
@@ -35,7 +42,7 @@ static C16: c16::C16 = c16::C16;
 static C20: c20::C20 = c20::C20;
 
 fn registry() -> Vec<&'static dyn Check> {
-    vec![&C01, &C02, &C03, &C05, &C06, &C07, &C17, &C10, &C13, &C18, &C19, &C14, &C15, &C16, &C20]
+    vec![&C01, &C02, &C03, &C05, &C06, &C07, &C08, &C09, &C11, &C12, &C17, &C10, &C13, &C18, &C19, &C14, &C15, &C16, &C20]
 }
 
 fn usage() -> ! {
